@@ -8,7 +8,13 @@
    (get of every name of the universe = the property-level map attrs).  All invariants of XattrPlace are evaluated
    after every line.
 
-   Line:  {"e": "reset"|"set"|"rm"|"share"|"reopen", "n","v","t", "ret", "st": {...}}  (see c15.py observe())      *)
+   Operations of the inline-data subsystem on the same inode (write / trunc / iset / iexp / punch / mkdirin) are
+   lines of the same trace: after each of them the parser must see exactly the model's placement (system.data present
+   iff the inode still has EXT4_INLINE_DATA_FL, st.inl), sizes and free space.  "skip" = the driver did not issue an
+   operation whose precondition (an inline-data inode) does not hold on disk; accepted only if the model agrees.
+
+   Line:  {"e": "reset"|"set"|"rm"|"share"|"reopen"|"write"|"trunc"|"iset"|"iexp"|"punch"|"mkdirin"|"skip",
+           "n","v","t", "ret", "st": {...}}  (see c15.py observe())      *)
 EXTENDS XattrPlace, Json, IOUtils
 VARIABLES l, fb0, fi0, ib0
 tvars == <<vars, l, fb0, fi0, ib0>>
@@ -19,15 +25,15 @@ B(x) == IF x THEN 1 ELSE 0
 IsEvent(e) == l <= Len(Tr) /\ Tr[l].e = e /\ l' = l + 1
 St == Tr[l].st
 
-\* one logged entry [n, vlen, tag, ea flag, e_value_offs, value-inode ref count, checks passed] against the model
+\* one logged entry [n, vlen, tag, ea flag, e_value_offs, value-inode ref count, checks passed, nz] against the model
 EntryOK(log, x, off) ==
    /\ log[1] = x.n /\ log[2] = x.vlen /\ log[3] = x.tag /\ log[4] = B(x.ea # 0) /\ log[5] = off
    /\ log[6] = (IF x.ea # 0 THEN eai'[x.ea].ref ELSE 0)
-   /\ log[7] = 1
+   /\ log[7] = 1 /\ log[8] = x.nz
 PartOK(logs, s, area, corr) ==
    /\ Len(logs) = Len(s)
    /\ \A i \in 1..Len(s) : EntryOK(logs[i], s[i], ValOff(s, i, area, corr))
-GetOf(s, n) == LET i == IndexOf(s, n) IN IF i = 0 THEN <<-1, 0>> ELSE <<s[i].vlen, s[i].tag>>
+GetOf(s, n) == LET i == IndexOf(s, n) IN IF i = 0 THEN <<-1, 0, 0>> ELSE <<s[i].vlen, s[i].tag, s[i].nz>>
 PeerEntries == CASE pstate' = "none" -> <<>> [] pstate' = "shared" -> BlP(place', ib') [] OTHER -> pblk'
 \* the logged post-state
 Logged ==
@@ -40,21 +46,24 @@ Logged ==
    /\ St.fb = fb0' - BlkAlloc' - DataAlloc'
    /\ St.fi = fi0' - InoAlloc'
    /\ St.iblk = ib0' + chg' * (BS \div 512)
+   /\ St.inl = B(inl') /\ St.isize = isize'
+   /\ St.ilen = (LET i == IndexOf(place', DATA) IN IF inl' /\ i # 0 THEN 60 + place'[i].vlen ELSE -1)      \* ext2fs_inline_data_size
    /\ Len(St.gets) = Len(NameTab)
-   /\ \A n \in 1..Len(NameTab) : St.gets[n] = (IF n \in Names THEN <<attrs'[n].vlen, attrs'[n].tag>> ELSE <<-1, 0>>)
+   /\ \A n \in 1..Len(NameTab) : St.gets[n] = (IF n \in Names THEN <<attrs'[n].vlen, attrs'[n].tag, attrs'[n].nz>> ELSE <<-1, 0, 0>>)
    /\ (St.pgets = <<>> \/ St.pgets = St.gets)
-   /\ (St.peer # <<>> => \A n \in 1..Len(NameTab) : St.peer[n] = (IF INLINE /\ n = DATA THEN <<0, 0>> ELSE GetOf(PeerEntries, n)))   \* the peer's own body holds its system.data
+   /\ (St.peer # <<>> => \A n \in 1..Len(NameTab) : St.peer[n] = (IF INLINE /\ n = DATA THEN <<0, 0, 0>> ELSE GetOf(PeerEntries, n)))   \* the peer's own body holds its system.data
 Keep == UNCHANGED <<fb0, fi0, ib0>>
 
 TReset == /\ IsEvent("reset")
-          /\ Tr[l].isz = ISZ /\ Tr[l].bs = BS /\ Tr[l].eainode = B(EAINODE) /\ Tr[l].inline = B(INLINE)
+          /\ Tr[l].isz = ISZ /\ Tr[l].bs = BS /\ Tr[l].eainode = B(EAINODE) /\ Tr[l].inline = B(INLINE) /\ Tr[l].isdir = B(ISDIR)
           /\ Len(Tr[l].names) = Len(NameTab)
           /\ \A n \in 1..Len(NameTab) : Tr[l].names[n] = <<NameTab[n].idx, NameTab[n].sn>>
           /\ attrs' = [n \in Names |-> IF n \in InitPresent THEN Val(0, 0) ELSE None]
-          /\ place' = (IF INLINE THEN <<[n |-> DATA, vlen |-> 0, tag |-> 0, ea |-> 0]>> ELSE <<>>)
+          /\ place' = (IF INLINE THEN <<[n |-> DATA, vlen |-> 0, tag |-> 0, ea |-> 0, nz |-> 0]>> ELSE <<>>)
           /\ ib' = (IF INLINE THEN 1 ELSE 0)
           /\ hasblk' = FALSE /\ magic' = INLINE /\ pstate' = "none" /\ pblk' = <<>>
           /\ eai' = [k \in 1..MaxEa |-> NoEa] /\ chg' = 0 /\ res' = 0 /\ nops' = 0
+          /\ inl' = INLINE /\ isize' = InitISize /\ ik' = InitIk /\ fblk' = 0 /\ dused' = 0 /\ nsub' = 0
           /\ fb0' = St.fb /\ fi0' = St.fi /\ ib0' = St.iblk
           /\ Logged
 TSet == /\ IsEvent("set") /\ Tr[l].n \in Names /\ Tr[l].v \in VLens /\ Tr[l].t \in Tags
@@ -67,10 +76,26 @@ TShareNo == /\ IsEvent("share") /\ Tr[l].ret = 2 /\ ~(hasblk /\ pstate = "none")
 \* closing and reopening the filesystem changes nothing that is observed
 TReopen == IsEvent("reopen") /\ UNCHANGED vars /\ Keep /\ Logged
 
+\* the other subsystems' operations on the same inode
+TSize == 0..70000
+TWrite == /\ IsEvent("write") /\ Tr[l].v \in TSize /\ Tr[l].t \in Tags
+          /\ PWrite(Tr[l].v, Tr[l].t) /\ res' = Tr[l].ret /\ Keep /\ Logged
+TTrunc == IsEvent("trunc") /\ Tr[l].v \in TSize /\ PTrunc(Tr[l].v) /\ res' = Tr[l].ret /\ Keep /\ Logged
+TISet == /\ IsEvent("iset") /\ Tr[l].v \in TSize /\ Tr[l].t \in Tags
+         /\ PISet(Tr[l].v, Tr[l].t) /\ res' = Tr[l].ret /\ Keep /\ Logged
+TIExp == IsEvent("iexp") /\ PIExpand /\ res' = Tr[l].ret /\ Keep /\ Logged
+TPunch == IsEvent("punch") /\ PPunch /\ res' = Tr[l].ret /\ Keep /\ Logged
+TMkdirIn == IsEvent("mkdirin") /\ Tr[l].v \in 1..255 /\ PMkdirIn(Tr[l].v) /\ res' = Tr[l].ret /\ Keep /\ Logged
+\* an operation on system.data / the inline area that the driver did not issue because the inode on disk has no
+\* EXT4_INLINE_DATA_FL (precondition of PSet(DATA) and PISet): legitimate only if the model has no inline data either
+TSkip == IsEvent("skip") /\ ~inl /\ Tr[l].ret = 5 /\ UNCHANGED vars /\ Keep /\ Logged
+
 TraceInit == /\ AInit(InitPresent) /\ place = <<>> /\ ib = 0 /\ hasblk = FALSE /\ magic = FALSE /\ pstate = "none" /\ pblk = <<>>
              /\ eai = [k \in 1..MaxEa |-> NoEa] /\ chg = 0 /\ res = 0 /\ nops = 0
+             /\ inl = FALSE /\ isize = 0 /\ ik = 0 /\ fblk = 0 /\ dused = 0 /\ nsub = 0
              /\ l = 1 /\ fb0 = 0 /\ fi0 = 0 /\ ib0 = 0
 TraceNext == TReset \/ TSet \/ TRm \/ TShare \/ TShareNo \/ TReopen
+             \/ TWrite \/ TTrunc \/ TISet \/ TIExp \/ TPunch \/ TMkdirIn \/ TSkip
 TraceSpec == TraceInit /\ [][TraceNext]_tvars
 TraceAccepted == TLCGet("stats").diameter - 1 = Len(Tr)
 \* the initial state before the first reset line is not an implementation state
@@ -87,4 +112,6 @@ I_EaSizes == TInv(EaSizes)
 I_PeerIntact == TInv(PeerIntact)
 I_EaOnlyWithFeature == TInv(EaOnlyWithFeature)
 I_Charge == TInv(Charge)
+I_DataIffInline == TInv(DataIffInline)
+I_ValueShapes == TInv(ValueShapes)
 =============================================================================
